@@ -6,6 +6,7 @@ from hypothesis import strategies as st
 import ndn.app_support.svs.sync as svs_sync
 from ndn.app_support.svs import SvsInst, SvsState
 from ndn.appv2 import pass_all
+from ndn.types import ValidResult
 from ndn.security import DigestSha256Signer
 
 from .. import pkt as P
@@ -127,7 +128,13 @@ def _run(sim, case, r):
             # the application reacts to new data by producing some itself, from inside the (non-blocking) callback
             cb_publishes['n'] += 1
             cb_publishes['pending'] = i.new_data()
-    inst = SvsInst(BASE, ME, on_missing, DigestSha256Signer(for_interest=True), pass_all,
+    async def awaiting_validator(_n, _s, _c):
+        # a validator that really suspends (a few loop iterations, no time passes)
+        for _ in range(3):
+            await asyncio.sleep(0)
+        return ValidResult.PASS
+    inst = SvsInst(BASE, ME, on_missing, DigestSha256Signer(for_interest=True),
+                   awaiting_validator if case.get('awaiting_validator') else pass_all,
                    sync_interval=30, suppression_interval=0.2, last_used_seq_num=case['start_seq'])
     me_key = node_key('me')
     model = {me_key: case['start_seq']}
@@ -147,6 +154,19 @@ def _run(sim, case, r):
     sim.vl.call(inst.start, sim.app)
     sim.vl.settle()
     trace = []
+    auto = {'armed': False, 'n': 0}
+    plain_send = sim.face.send
+
+    def send_hook(data):
+        plain_send(data)
+        if auto['armed']:
+            auto['armed'] = False
+
+            def pub():
+                inst.new_data()
+                auto['n'] += 1
+            sim.vl.loop.call_soon(pub)
+    sim.face.send = send_hook
     mstate = 'steady'    # the model's own view: 'steady' | 'sup' (a suppression period is running)
     sup = None           # merge of the vectors heard during the running suppression period
     sup_heard_n = 0
@@ -229,7 +249,23 @@ def _run(sim, case, r):
                 allowed = [nz(merged)]
                 if malformed:
                     allowed.append(nz(model))       # ignoring the whole vector is fine too
-            if op['via'] == 'receive':
+            if op['via'] == 'receive' and op.get('stop_during') and case.get('awaiting_validator') and mstate == 'steady' \
+                    and inst.state == SvsState.SyncSteady:
+                # the application leaves the group while this sync Interest is still with the validator, and joins again:
+                # the vector is either ignored entirely or merged AND announced to the application
+                wire_ = sync_interest(entries, fl)
+
+                def deliver_and_stop():
+                    lp = asyncio.get_running_loop()
+                    lp.create_task(sim.app.face.callback(5, wire_))
+                    lp.call_soon(inst.stop)
+                sim.vl.call(deliver_and_stop)
+                sim.vl.settle()
+                sim.vl.call(inst.start, sim.app)
+                sim.vl.settle()
+                allowed.append(nz(model))
+                flags.add('stopped-during-validation')
+            elif op['via'] == 'receive':
                 sim.deliver(sync_interest(entries, fl), 'task')
             else:
                 comp = sv_component(entries, fl)
@@ -341,16 +377,30 @@ def _run(sim, case, r):
             dt = {'0': 0.0, '1ms': 0.001, 'before': max(0.0, target - 0.001), 'at': max(0.0, target),
                   'after': max(0.0, target + 0.001)}[op['how']]
             dt = min(dt, 40.0)
+            auto['armed'] = bool(op.get('pub_on_emit'))
             sim.vl.advance(dt)
+            auto['armed'] = False
+            old_model = dict(model)
+            if auto['n']:
+                # the application published in the loop iteration right after a sync Interest left the face
+                model[me_key] += auto['n']
+                auto['n'] = 0
+                flags.add('publish-right-after-emission')
+                sim.vl.settle()
             errs = sim.vl.collect_errors()
             if errs:
                 r.bad(f'C18/timer-task-failed/{errs[0]["type"]}', str(errs[0])[:300])
                 return
             em = emitted_since(n_sent)
             for v in em:
-                if nz(v) != nz(model):
+                if nz(v) != nz(model) and nz(v) != nz(old_model):
                     r.bad('C18/announced-vector-differs', f'{v} != {model}')
                     return
+            if model != old_model:
+                if not em or nz(em[-1]) != nz(model):
+                    r.bad('C18/publish-right-after-emission-not-announced', f'emitted {em}; local {model}')
+                    return
+                mstate, sup = 'steady', None
             t_end = sim.vl.clock.t
             ended = mstate == 'sup' and (t_end > sup_start + 0.3 + 1e-6 or
                                          (t_end >= sup_start + 0.1 - 1e-6 and inst.state == SvsState.SyncSteady))
@@ -385,11 +435,12 @@ _ENTRY = st.tuples(st.sampled_from(['n1', 'n2', 'n3', 'me', 'n1']), st.sampled_f
 
 def _ops():
     recv = st.fixed_dictionaries({'op': st.just('recv'), 'entries': st.lists(_ENTRY, min_size=0, max_size=4),
-                                  'via': st.sampled_from(['receive', 'handler']),
+                                  'via': st.sampled_from(['receive', 'handler']), 'stop_during': st.sampled_from([False, False, False, True]),
                                   'flags': st.sampled_from([[]] * 10 + [['truncated'], ['wrong-type']])})
     publish = st.just({'op': 'publish'})
     restart = st.fixed_dictionaries({'op': st.just('restart'), 'gap': st.booleans()})
-    adv = st.fixed_dictionaries({'op': st.just('adv'), 'how': st.sampled_from(['0', '1ms', 'before', 'at', 'after', 'after'])})
+    adv = st.fixed_dictionaries({'op': st.just('adv'), 'how': st.sampled_from(['0', '1ms', 'before', 'at', 'after', 'after']),
+                                 'pub_on_emit': st.sampled_from([False, False, False, True])})
     free = st.lists(st.one_of(recv, recv, recv, recv, publish, publish, adv, adv, adv, restart), min_size=2, max_size=25)
     anyop = st.one_of(recv, publish, adv, restart)
 
@@ -437,7 +488,7 @@ def _ops():
 
 
 def _case():
-    return st.fixed_dictionaries({'start_seq': st.integers(0, 3), 'publish_before_start': st.sampled_from([0, 0, 0, 1, 2]), 'publish_in_callback': st.sampled_from([False, False, True]), 'jitter': st.lists(st.integers(0, 65535), min_size=1, max_size=4),
+    return st.fixed_dictionaries({'start_seq': st.integers(0, 3), 'awaiting_validator': st.booleans(), 'publish_before_start': st.sampled_from([0, 0, 0, 1, 2]), 'publish_in_callback': st.sampled_from([False, False, True]), 'jitter': st.lists(st.integers(0, 65535), min_size=1, max_size=4),
                                   'ops': _ops()})
 
 
